@@ -435,6 +435,9 @@ def shrink_case(case, sig):
 def process(ctx, cases, compare_model=True, procs=1):
     if not cases:
         return
+    # initialise in the parent: forked workers inherit its temp directory (removed by the parent's atexit
+    # hook; pool workers never run atexit hooks, so they must not create directories of their own)
+    R.init()
     if procs > 1 and len(cases) > 200:
         n = max(1, len(cases) // (procs * 4))
         chunks = [cases[i:i + n] for i in range(0, len(cases), n)]
